@@ -23,7 +23,8 @@ LEVEL_TEXT = ("Streams of 1-6 message/junk lines (LF and CRLF; ASCII, 2/3/4-byte
               "Thorough adds all cut pairs on bounded streams, seeded cuts on 200 KiB streams and a real child process "
               "writing the pieces with pauses (boundaries that fell inside a character are counted)."
               " Also several clients in one process (alive together, one after the other, overlapping; reads interleaved; earlier ones ending mid-line): each must frame exactly its own child's bytes."
-              ' Also responses with non-object results and falsy/negative ids, boolean and fractional ids as junk, per-request streams registered for the ids a stream carries.')
+              ' Also responses with non-object results and falsy/negative ids, boolean and fractional ids as junk, per-request streams registered for the ids a stream carries.'
+              ' Also an application that is busy while 101-400 answers arrive (reading paused, per-request streams registered for their ids or not): after it reads on, the read stream must have carried every line.')
 LEVEL_NOTE = ("Trusted: the ScriptedProcess stand-in yields exactly the chosen chunks; reference framing = split whole "
               "stream on LF, UTF-8 decode, strip, json.loads, independent JSON-RPC validator. Lines with a missing/non-2.0 "
               "jsonrpc member may be delivered or dropped (the library's own tests pin leniency there).")
